@@ -21,6 +21,9 @@ DE43_REGEX = (r"(?P<DE43_NAME>.+?) *\\(?P<DE43_ADDRESS>.+?) *\\(?P<DE43_SUBURB>.
               r"(?P<DE43_POSTCODE>.{10})(?P<DE43_STATE>.{3})(?P<DE43_COUNTRY>\S{3})$")
 
 
+DE43_REGEX_B = r"(?P<DE43_NAME>[^\\]{1,22}).*?(?P<DE43_COUNTRY>\S{3})$"
+
+
 def codec_chars(enc: str) -> str:
     """characters (one per byte value) that survive encode/decode in a single-byte codec"""
     if enc not in _CHARS:
@@ -239,7 +242,7 @@ def gen_config(rng):
                 c["field_processor"] = "PAN-PREFIX"
             elif p < 0.32:
                 c["field_processor"] = "DE43"
-                c["field_processor_config"] = DE43_REGEX
+                c["field_processor_config"] = DE43_REGEX if rng.random() < 0.7 else DE43_REGEX_B
         else:
             c = {"field_name": f"f{b}", "field_type": "LLLVAR", "field_length": 0}
             p = rng.random()
